@@ -291,6 +291,15 @@ func compareTrees(o *pbt.Outcome, what, how string, a, b map[string]string, spec
 						}
 					}
 				}
+				if !related {
+					// a definition lifted by the flattener is not in the input: look at what the differing lines mention
+					fd := lowerAlnum(firstDiff(a[p], bv))
+					for n := range aliasRelated {
+						if len(n) >= 3 && strings.Contains(fd, lowerAlnum(n)) {
+							related = true
+						}
+					}
+				}
 				if related {
 					k = strings.TrimSuffix(k, "|plain-definition") + "|alias-of-alias-chain"
 				}
